@@ -14,6 +14,10 @@ def gen_inputs(rng, spec, n=None, engines_ok=None):
     if engines_ok is None:
         engines_ok = rng.random() < 0.9
     inp = {"n": n, "dt": [float(rng.choice([1.0, 10.0, 60.0, 600.0])) for _ in range(n)], "comp": {}}
+    # on/off series: booleans or 0/1 numbers; and, as feems/runsimulation.py does with its on_vector, one "all on"
+    # array object may be handed to every engine
+    inp["dtype"] = {"status": str(rng.choice(["bool", "int", "float"], p=[0.6, 0.2, 0.2]))}
+    inp["shared_on_vector"] = bool(rng.random() < 0.3)
     pti_specs = {p["name"]: p for p in spec.get("electric_objects", [])}
     pti_specs.update({c["name"]: c for c in spec.get("electric", []) if c["kind"] == "pti_pto"})
     for ln in spec["lines"]:
@@ -21,7 +25,7 @@ def gen_inputs(rng, spec, n=None, engines_ok=None):
         loads = [c for c in spec["mechanical"] if c.get("shaft_line") == ln and c["kind"] == "mech_load"]
         total = sum(e["rated"] for e in engines)
         for e in engines:
-            inp["comp"][e["name"]] = {"status": [bool(rng.random() < (0.85 if engines_ok else 0.35)) for _ in range(n)]}
+            inp["comp"][e["name"]] = {"status": [bool(inp["shared_on_vector"] or rng.random() < (0.85 if engines_ok else 0.35)) for _ in range(n)]}
         for l in loads:
             scale = min(l["rated"], 0.6 * total / len(loads))
             inp["comp"][l["name"]] = {"load": [float(np.round(rng.uniform(0.0, 0.9) * scale, 2)) if rng.random() < 0.9 else 0.0 for _ in range(n)]}
@@ -37,10 +41,12 @@ def gen_inputs(rng, spec, n=None, engines_ok=None):
 
 def apply_inputs(plant, inp):
     n = inp["n"]
+    st_dt = {"bool": bool, "int": int, "float": float}[inp.get("dtype", {}).get("status", "bool")]
+    on_vector = np.ones(n, dtype=st_dt)
     for c in plant.spec["mechanical"]:
         obj, d = plant.by_name[c["name"]], inp["comp"][c["name"]]
         if c["kind"] == "main_engine":
-            obj.status = np.array(d["status"], dtype=bool)
+            obj.status = on_vector if (inp.get("shared_on_vector") and len(d["status"]) == n and all(d["status"])) else np.array(d["status"], dtype=st_dt)
         elif c["kind"] == "mech_load":
             obj.set_power_input_from_output(np.array(d["load"], dtype=float))
         else:
